@@ -848,6 +848,22 @@ def run_hist(script, judge=None):
             res.append(gr_ord_obs(full))
             val.append((False, False, full, full))
             G = MolToGraph(node_attrs=list(_DEF_ATTRS), edge_attrs=["order"]).transform(mol)
+            # GraphToMol with CUSTOM attribute names (the documented node_attributes / edge_attributes mappings) on the same graph
+            # with its keys renamed: must hand RDKit the same molecule as the default names do
+            import networkx as _nx
+            Gc = _nx.Graph()
+            ren = {"element": "symbol", "charge": "q", "atom_map": "amap"}
+            for nn, dd in G.nodes(data=True):
+                Gc.add_node(nn, **{ren.get(kk, kk): vv for kk, vv in dd.items()})
+            for uu, vv, dd in G.edges(data=True):
+                Gc.add_edge(uu, vv, **{("bo" if kk == "order" else kk): xx for kk, xx in dd.items()})
+            try:
+                rwc = GraphToMol(node_attributes={"element": "symbol", "charge": "q", "atom_map": "amap"},
+                                 edge_attributes={"order": "bo"}).graph_to_mol(Gc, False, False, True)
+                from ..gen import c10_rxn as _c10r
+                res.append(_c10r.rw_obs(rwc))
+            except Exception:
+                res.append([])
             for ign, useh in ((True, True), (False, False), (True, False)):
                 try:
                     rw = GraphToMol().graph_to_mol(G, ign, False, useh)
@@ -999,6 +1015,7 @@ def coq_hist(script):
             parts = ["L [t_gr_ord (mol_to_graph_light %s %s %s %s); t_gr_ord (mol_to_graph %s %s %s)]"
                      % (mv, ab, cbool(d), cbool(u), mv, cbool(d), cbool(u)) for d, u in _MG_CFGS]
             parts.append("t_gr_ord (mol_to_graph %s false false)" % mv)
+            parts.append("t_wmol (graph_to_mol (mol_to_graph %s false false))" % mv)     # custom attribute names: the same function
             parts += ["t_wmol (graph_to_mol_gen %s %s (mol_to_graph %s false false))" % (cbool(i), cbool(u), mv)
                       for i, u in ((True, True), (False, False), (True, False))]
             outs.append("L [%s]" % "; ".join(parts))
@@ -1187,6 +1204,33 @@ def _oracle_hist(case):
                 inc = [sorted([e, o] if b == i else [b, o] for b, e, o in rec["bonds"] if i in (b, e)) for i in range(len(rec["atoms"]))]
                 if [sorted(x) for x in rec["abonds"]] != inc:
                     fails.append(_fail("rdkit-contract", "%s: atom.GetBonds() of %r does not list exactly the bonds of each atom" % (tag, st["smiles"])))
+            # graph -> molecule with the documented custom attribute names: the same molecule (atom maps included) as RDKit read
+            try:
+                import networkx as _nx
+                from synkit.IO.chem_converter import smiles_to_graph as _s2g
+                from synkit.IO.graph_to_mol import GraphToMol as _G2M
+                prm = Chem.SmilesParserParams()
+                prm.removeHs = False
+                refm = Chem.MolFromSmiles(st["smiles"], prm)
+                G0 = _s2g(st["smiles"])
+                if refm is not None and G0 is not None and not any(a.GetNumRadicalElectrons() or a.GetIsotope() for a in refm.GetAtoms()):
+                    ren = {"element": "symbol", "charge": "q", "atom_map": "amap"}
+                    Gc = _nx.Graph()
+                    for nn, dd in G0.nodes(data=True):
+                        Gc.add_node(nn, **{ren.get(kk, kk): vv for kk, vv in dd.items()})
+                    for uu, vv, dd in G0.edges(data=True):
+                        Gc.add_edge(uu, vv, **{("bo" if kk == "order" else kk): xx for kk, xx in dd.items()})
+                    try:
+                        mc = _G2M(node_attributes=dict(ren), edge_attributes={"order": "bo"}).graph_to_mol(Gc, use_h_count=True)
+                        outc = Chem.MolToSmiles(mc)
+                    except Exception:
+                        outc = None
+                    backc = Chem.MolFromSmiles(outc, prm) if outc is not None else None
+                    if backc is None or _canon_nostereo(backc) != _canon_nostereo(refm):
+                        fails.append(_fail("smiles-roundtrip", "%s: %r -> graph -> GraphToMol(custom attribute names) -> %r, expected %r"
+                                           % (tag, st["smiles"], outc, _canon_nostereo(refm))))
+            except ImportError:
+                pass
             for d, u, lw, dt in val:
                 ref = _ref_graph(st["smiles"], d, u, set(_KNOWN), True)
                 if ref is not None:
